@@ -11,6 +11,7 @@ import OxiddModel.VarNames.Driver
 import OxiddModel.Circuit.Driver
 import OxiddModel.Ffi.Driver
 import OxiddModel.Locks.Driver
+import OxiddModel.Alloc.Driver
 import OxiddModel.Reorder.DriverStore
 import OxiddModel.Reorder.DriverStoreC
 
@@ -32,6 +33,7 @@ def protos : List (String × Proto) := [
   ("circ", OxiddModel.Circuit.proto),
   ("capi", OxiddModel.Ffi.proto),
   ("locks", OxiddModel.Locks.proto),
+  ("alloc", OxiddModel.Alloc.proto),
   ("capi-before-fix", OxiddModel.Ffi.protoBeforeFix),
   ("reorder-store", OxiddModel.Reorder.SwapStore.proto),
   ("reorder-store-bcdd", OxiddModel.Reorder.SwapStoreC.proto)
